@@ -37,6 +37,7 @@ Check(ev, what) ==
 \* mode "beyond": more files than the statement covers (65 536): nothing is demanded, the outcome is only reported
 Failed(ev) ==
   IF ev.mode = "beyond" THEN <<>>
+  ELSE IF ev.mode = "bytes" THEN BigBodiesFailed(ev)    \* rule-built packs with > 2^24 bytes of bodies (see Fe9Pack.tla)
   ELSE IF ev.ser # "ok" THEN <<"serialize">>
   ELSE SelectSeq(<<"well-formed", "ref-reader", "exact", "parsed">>, LAMBDA w : ~Check(ev, w))
 
